@@ -57,7 +57,8 @@ class Extractor(metaclass=abc.ABCMeta):
         if "b" in mode:
             return handle
 
-        return cast(IO[str], WithDecoding(handle, encoding or "ascii"))
+        # Python source and data files of a project are UTF-8 unless stated otherwise.
+        return cast(IO[str], WithDecoding(handle, encoding or "utf-8"))
 
     @abc.abstractmethod
     def names(self) -> Iterable[str]:
